@@ -1,6 +1,6 @@
 #!/bin/bash
 # Runs all 20 quick checks against a scratch clone of /repo with one change applied (testing aid, concurrency-safe):
-#   benign_matrix.sh <dir-with-patch.diff> [Cxx ...]     prints one line per check that is not silent
+#   benign_matrix.sh <dir-with-patch.diff> [Cxx ...]     prints one line per check that is not silent (BM_TIER=thorough for the thorough tier)
 D=$(realpath "$1"); shift
 ID=$(basename $D)
 PROPS="$@"; [ -z "$PROPS" ] && PROPS="C01 C02 C03 C04 C05 C06 C07 C08 C09 C10 C11 C12 C13 C14 C15 C16 C17 C18 C19 C20"
@@ -12,7 +12,7 @@ cd /verif
 mkdir -p /verif/work/bm
 out=""
 for P in $PROPS; do
-  VERIF_REPO=$SCR VERIF_EVIDENCE_DIR=/verif/work/bm/ev_$ID python3 check.py $P quick > /verif/work/bm/$ID.$P.log 2>&1; rc=$?
+  VERIF_REPO=$SCR VERIF_EVIDENCE_DIR=/verif/work/bm/ev_$ID python3 check.py $P ${BM_TIER:-quick} > /verif/work/bm/$ID.$P.log 2>&1; rc=$?
   if [ $rc -ne 0 ]; then
     out="$out $P(rc=$rc)"
     echo "$ID $P exit=$rc $(grep -c '^VIOLATION' /verif/work/bm/$ID.$P.log) violations"
